@@ -241,7 +241,7 @@ theorem split_joined (nl : Bytes) (hnl : nl = [0x0A] ∨ nl = [0x0D, 0x0A]) (seg
       | cons x y => simp
     rw [this]
     simp only [Bool.false_eq_true, if_false, List.reverse_reverse, List.map_cons, List.map_nil]
-    have := trimNlCr_piece pre body [] hpre hb (Or.inl rfl)
+    have := trimNlCr_piece_lf pre body [] hpre hb (Or.inl rfl)
     rw [List.append_nil] at this
     rw [this]
   | cons s r ih =>
@@ -261,13 +261,13 @@ theorem split_joined (nl : Bytes) (hnl : nl = [0x0A] ∨ nl = [0x0D, 0x0A]) (seg
       have e : s.reverse ++ [] = (([] : Bytes) ++ s).reverse := by simp
       rw [List.map_cons, e, ih hr' hlast' [] s (Or.inl rfl) hsn hne']
       have : (0x0A :: (pre ++ body).reverse).reverse = pre ++ body ++ [0x0A] := by simp
-      rw [this, trimNlCr_piece pre body [0x0A] hpre hb (Or.inr ⟨0x0A, rfl, by decide⟩)]
+      rw [this, trimNlCr_piece_lf pre body [0x0A] hpre hb (Or.inr ⟨0x0A, rfl, by decide⟩)]
     · show List.map trimNlCr (splitCustomGo false (pre ++ body).reverse (0x0D :: 0x0A :: (s ++ _))) = _
       rw [split_crlf, split_noNl s hsn]
       have e : s.reverse ++ [0x0A] = (([0x0A] : Bytes) ++ s).reverse := by simp
       rw [List.map_cons, e, ih hr' hlast' [0x0A] s (Or.inr rfl) hsn hne']
       have : (0x0D :: (pre ++ body).reverse).reverse = pre ++ body ++ [0x0D] := by simp
-      rw [this, trimNlCr_piece pre body [0x0D] hpre hb (Or.inr ⟨0x0D, rfl, by decide⟩)]
+      rw [this, trimNlCr_piece_lf pre body [0x0D] hpre hb (Or.inr ⟨0x0D, rfl, by decide⟩)]
 
 theorem endsQ_ne_nil {c : Bytes} (h : EndsQ c) : c ≠ [] := by
   intro e; subst e; simp [EndsQ] at h
@@ -476,7 +476,7 @@ theorem linesCustom_last (c : Bytes) (hq : EndsQ c) : ∃ init l, linesCustom c 
   have hmem : p ∈ splitCustomGo false [] c := by rw [e]; simp
   obtain ⟨pre, body, suf, rfl, h1, h2, h3⟩ :=
     splitCustomGo_shapes false [] c ⟨[], [], by simp, Or.inl rfl, NoNl.nil⟩ (by intro h; simp at h) p hmem
-  rw [trimNlCr_piece pre body suf h1 h2 h3]
+  rw [trimNlCr_piece_lf pre body suf h1 h2 h3]
   rcases h3 with rfl | ⟨t, rfl, ht⟩
   · rw [List.append_nil] at hp
     by_cases hb : body = []
